@@ -12,7 +12,12 @@ import (
 var reFrameSuffix = regexp.MustCompile(`@[A-Za-z0-9_>$.*()]+:t\d+`)
 
 // normName strips the site suffixes the machine attaches to call results.
-func normName(s string) string { return reFrameSuffix.ReplaceAllString(s, "") }
+func normName(s string) string {
+	s = reFrameSuffix.ReplaceAllString(s, "")
+	return reAppendName.ReplaceAllString(s, "append")
+}
+
+var reAppendName = regexp.MustCompile(`append:[A-Za-z0-9_>$.*()]+:t\d+`)
 
 // exploreOperator explores fn (evaluateBinary / evaluateUnary) for one operator token type; the handle*
 // helpers are inlined, the coercions and isEqual stay events.
@@ -316,8 +321,9 @@ func tokNames(names map[int64]string, set map[int64]bool) []string {
 }
 
 // toNumber / toInt64 per universe representation
-func checkCoercions(p *Prog, l *Ledger) {
-	rule := "C02/I1-coercions"
+func checkCoercions(p *Prog, l *Ledger) { checkCoercionsRule(p, l, "C02/I1-coercions") }
+
+func checkCoercionsRule(p *Prog, l *Ledger, rule string) {
 	for _, spec := range []struct {
 		fn    string
 		typ   string
